@@ -1,0 +1,6 @@
+//go:build verif && !vectors
+
+// Build-dependent contract vocabulary: without the vectors tag a segment's vector cache is an empty stub.
+package zap
+
+//@ pred vecCacheFree(s) = true
